@@ -308,6 +308,68 @@ pub fn worker_bin(shard: usize, _nshards: usize, seed: u64, tier: &str, out: &mu
         out.end();
         return;
     }
+    if shard == 6 || shard == 7 {
+        // over-long game records: `position ... moves` with more plies than the interface allows
+        // must be refused cleanly, however long the list is and whatever follows it
+        let shuffle = ["g1f3", "g8f6", "f3g1", "f6g8"];
+        let lens: &[usize] = if shard == 6 { &[398, 399, 400, 450, 511, 512, 513, 600, 1000] } else { &[420, 505, 511, 520, 700] };
+        for &l in lens {
+            let mut moves: Vec<String> = (0..l).map(|i| shuffle[i % 4].to_string()).collect();
+            let with_illegal_tail = shard == 7;
+            if with_illegal_tail {
+                moves.push("a1a8".into());
+            }
+            let case = json!({"kind":"overlong-record","plies":l,"illegal_move_appended":with_illegal_tail});
+            out.begin(&case);
+            let Ok(mut s) = Session::spawn(&engine_bin(true), &[], &[], None) else {
+                out.inconclusive("cannot start the checked binary");
+                return;
+            };
+            s.keep_log = false;
+            s.send(&format!("position startpos moves {}", moves.join(" ")));
+            s.send("show");
+            s.send("go depth 3");
+            s.send("isready");
+            let mut lines = vec![];
+            let ok = loop {
+                match s.next(Duration::from_secs(20)) {
+                    Some(ev) if ev.kind == Kind::Out => {
+                        if ev.text == "readyok" {
+                            break true;
+                        }
+                        lines.push(ev.text);
+                    }
+                    Some(ev) if ev.kind == Kind::OutEof => break false,
+                    Some(_) => {}
+                    None => break false,
+                }
+            };
+            out.add("overlong_record_runs", 1);
+            let mut alive = ok;
+            if ok {
+                // let a started search finish (or be stopped) and make sure the engine still answers
+                s.send("stop");
+                s.send("isready");
+                alive = s.wait_out(Duration::from_secs(20), |t| t == "readyok").is_some();
+            }
+            if !alive {
+                let st = s.wait_exit(Duration::from_secs(3));
+                out.viol("C15", &format!("C15|overlong|{l}|{with_illegal_tail}"),
+                    &format!("`position startpos moves <{l} plies{}>` + show + go depth 3 on the debug-assertions build: engine died or fell silent ({st:?}): {}",
+                        if with_illegal_tail { " + one illegal move" } else { "" },
+                        s.stderr_text().lines().filter(|x| !x.trim().is_empty()).take(4).collect::<Vec<_>>().join(" / ")), case);
+            } else {
+                let refused = lines.iter().any(|t| t.starts_with("error"));
+                if l >= 399 && refused {
+                    out.add("overlong_records_refused", 1);
+                }
+                s.send("quit");
+                let _ = s.wait_exit(Duration::from_secs(5));
+            }
+            out.end();
+        }
+        return;
+    }
     // UCI capacity runs: the longest accepted game, then deep / unlimited searches
     let n = if tier == "thorough" { 12 } else { 2 };
     for gi in 0..n {
@@ -411,7 +473,7 @@ pub fn run(tier: &str, seed: u64) -> i32 {
     }
     chk.evaluations = agg.c("climb_candidates") + agg.c("searches_after_long_games") + agg.c("texts_tried") + agg.c("uci_capacity_runs") + agg.c("autoplay_runs");
     chk.distinct_nontrivial = agg.c("climb_accepted_by_reader") + agg.c("games_at_interface_length_limit") + agg.c("texts_accepted");
-    chk.rule = "executions on the debug-assertions build (std unsafe-precondition checks for get_unchecked/unwrap_unchecked, arrayvec capacity asserts, Position asserts) and on the release build with the capacity gauges of the cfg hooks (abort before an unchecked push at capacity): (a) hill-climb over positions the reader accepts maximising the unchecked move count (reaches the 256 boundary if the reader lets such material through), then a search of the best position; (b) 398-ply games (the interface's limit) of material-stripping / king-walk / capture policies loaded with push_history, followed by searches with limit none/255/64/8-37 under a poll budget, state-stack high-water mark read from the gauge; (c) `rustybait auto 0|1|2|3|5|8` self-play on the debug-assertions binary until it ends, the real self-play loop (autoplay.rs) in-process with every search ended after a fixed number of polls (a ladder of 32 speeds + random ones: deterministic games, some of which run to the length limit), and `position ... moves <398 plies>` + `go infinite|depth N` on the same binary; (d) mutated corpus FENs that the reader accepts: generation, push/pop, display, shallow search; (e, thorough) Miri over FEN parsing, push/pop/get_moves and shallow searches. distinct_nontrivial = accepted climb candidates + games at the length limit + accepted mutant texts.".into();
+    chk.rule = "executions on the debug-assertions build (std unsafe-precondition checks for get_unchecked/unwrap_unchecked, arrayvec capacity asserts, Position asserts) and on the release build with the capacity gauges of the cfg hooks (abort before an unchecked push at capacity): (a) hill-climb over positions the reader accepts maximising the unchecked move count (reaches the 256 boundary if the reader lets such material through), then a search of the best position; (b) 398-ply games (the interface's limit) of material-stripping / king-walk / capture policies loaded with push_history, followed by searches with limit none/255/64/8-37 under a poll budget, state-stack high-water mark read from the gauge; (c) `rustybait auto 0|1|2|3|5|8` self-play on the debug-assertions binary until it ends, the real self-play loop (autoplay.rs) in-process with every search ended after a fixed number of polls (a ladder of 32 speeds + random ones: deterministic games, some of which run to the length limit), `position ... moves <398 plies>` + `go infinite|depth N` on the same binary, and over-long records (398-1000 plies, also followed by an illegal move) + `show` + `go` which must be refused cleanly; (d) mutated corpus FENs that the reader accepts: generation, push/pop, display, shallow search; (e, thorough) Miri over FEN parsing, push/pop/get_moves and shallow searches. distinct_nontrivial = accepted climb candidates + games at the length limit + accepted mutant texts.".into();
     chk.assumptions = vec![
         "ASan and valgrind do not see these overflows (the writes land inside the same Game object / ArrayVec): measured in the design phase, so the checked build and the gauges are the detectors".into(),
         "'self-play of unbounded length' is restated as: until the program ends by itself, under a wall-clock watchdog whose expiry is inconclusive".into(),
@@ -425,6 +487,8 @@ pub fn run(tier: &str, seed: u64) -> i32 {
     chk.need("deterministic self-play games", agg.c("selfplay_games"), 30);
     chk.need("self-play games reaching 400 plies", agg.c("selfplay_games_reaching_400_plies"), 1);
     chk.need("UCI capacity runs", agg.c("uci_capacity_runs"), 4);
+    chk.need("over-long game records sent to the binary", agg.c("overlong_record_runs"), 10);
+    chk.need("over-long game records refused", agg.c("overlong_records_refused"), 8);
     chk.need("workers on the debug-assertions build", agg.c("workers_checked"), 8);
     finalize(chk, &agg)
 }
